@@ -237,16 +237,28 @@ Definition copy_flat (h : holder) (mem : list Z) (dst_size : Z) (pad_section pad
   end.
 
 (* ---------------------------------------------------------------- relocate_to_base tail *)
-(* if the address table is the LAST section in order: its buffer and virtual size become used*address_size;
-   answers the new holder and RelocationSummary::code_size_reduction *)
+(* the address table's buffer becomes used*address_size bytes wherever it sits (its slots are data now); if it is the
+   LAST section in order its virtual size shrinks to the same value and the difference is reported as
+   RelocationSummary::code_size_reduction; otherwise the virtual size (the reservation) stays and nothing is reported *)
 Fixpoint shrink_last (l : list section) (tab_id : Z) (used_bytes : Z) : list section * Z :=
   match l with
   | [] => ([], 0)
   | [s] => if sid s =? tab_id
            then ([set_sizes s used_bytes used_bytes (firstn (Z.to_nat used_bytes) (sdata s))], svsize s - used_bytes)
            else ([s], 0)
-  | s :: t => let (t', r) := shrink_last t tab_id used_bytes in (s :: t', r)
+  | s :: t => let (t', r) := shrink_last t tab_id used_bytes in
+              ((if sid s =? tab_id then set_sizes s used_bytes (svsize s) (firstn (Z.to_nat used_bytes) (sdata s)) else s) :: t', r)
   end.
+
+(* ---------------------------------------------------------------- C strings: name_size == SIZE_MAX means strlen(name) *)
+Fixpoint cstr (buf : list Z) : list Z :=
+  match buf with
+  | [] => []
+  | c :: t => if c =? 0 then [] else c :: cstr t
+  end.
+
+Definition new_section_cstr (h : holder) (buf : list Z) (align order : Z) : err * holder := new_section h (cstr buf) align order.
+Definition section_by_name_cstr (h : holder) (buf : list Z) : option Z := section_by_name h (cstr buf).
 
 (* ---------------------------------------------------------------- address table (ensure_address_table_section,
    add_address_to_address_table) and the emitter-side size changes used by the correspondence scenarios *)
